@@ -203,6 +203,8 @@ def c11_repro(ctx, owners, sym_owner_chars=0, dests=None, late_source_date=False
     s = z3.Solver()
     s.set("timeout", 120000)
     stats = {"pair_queries": 0, "solver_queries": 0}
+    import time as _time
+    _t0 = _time.time()
 
     def has_uf(x, memo={}):
         k = x.get_id()
@@ -267,6 +269,9 @@ def c11_repro(ctx, owners, sym_owner_chars=0, dests=None, late_source_date=False
                 return
     ctx.extra.update(stats)
     ctx.extra["environments"] = len(runs)
+    # the comparison phase is solver work too: count it in the reported solver time / calls
+    ctx.stats.solver_s += _time.time() - _t0
+    ctx.stats.solver_calls += stats["pair_queries"] + stats["solver_queries"]
 
 
 HARNESSES["c11_repro_root1"] = lambda ctx: c11_repro(ctx, [(b"root", b"root")])
